@@ -23,7 +23,7 @@ TEXT = {
                    "Expression objects as arguments. A third reference besides the fresh instance and the "
                    "per-run record: every canary's outcome in a process of its own that has solved nothing "
                    "else, computed before the search starts (catches state shared by all instances that "
-                   "an earlier run of the same worker has already set). One run in 40 is a marathon: up to 160 solve() calls on the same instances (counters, caches and thresholds that only a long-lived instance reaches). In a third of the runs the long-lived instances are used through `with` blocks in turn (several sessions on the same objects).",
+                   "an earlier run of the same worker has already set). One run in 40 is a marathon: up to 160 solve() calls on the same instances (counters, caches and thresholds that only a long-lived instance reaches). In a third of the runs the long-lived instances are used through `with` blocks in turn (several sessions on the same objects). User code that uses the library: an atom class whose constructor solves two expressions on another long-lived solver (configuration reentrant), a user-defined postfix operator whose constructor reads its factor from the live expression and solves it with another solver (configuration userop).",
         level_note="Trusted: a fresh instance is the reference (history must not matter, by the "
                    "property); comparison is on repr of value / exception type and args. Sampled "
                    "histories, not all.",
@@ -79,7 +79,11 @@ TEXT = {
                    "run in 40 is a marathon (a history ten times the ordinary cap of 40 operations). Every "
                    "successful in-place to(<unit text>) is compared with what a fresh quantity built from "
                    "the member's own report reads in that unit (whatever an operand remembers from an "
-                   "earlier conversion or operator must not show in its next conversion).",
+                   "earlier conversion or operator must not show in its next conversion). In 30 % of "
+                   "the runs everything happens inside a unit scope whose conversion class, whenever a "
+                   "conversion asks it, computes with quantities of its own (temperature, level, cosine, "
+                   "+, -, ==; in rotating order) and declines: the nested results, its own operands and "
+                   "the outer operation are all checked.",
         level_note="Trusted: NumPy equality; a float that became an equal Decimal is not counted as a "
                    "change. Sampled histories, not all.",
         design_ref="4 (C07)"),
@@ -106,7 +110,9 @@ TEXT = {
                    "plain numbers as targets (to(None), to({})): accepted for dimensionless units, refused "
                    "for everything else; quantities made inside a custom-unit scope and converted for the "
                    "first time after it / inside a later scope that gives the symbol another size keep "
-                   "the base value they were made with.",
+                   "the base value they were made with. In 30 % of the runs everything happens inside a "
+                   "unit scope whose conversion class uses the library whenever it is asked (see C07) and "
+                   "declines.",
         level_note="Only the clauses about one mutable object through a history are decided; the factor "
                    "formula over all unit triples is sampled as a by-product, not covered. Magnitudes kept "
                    "within 1e+-290; offset/logarithmic units excluded by the statement; bare number to "
@@ -137,7 +143,9 @@ TEXT = {
                    "operations: collectors of hundreds of rows, growth boundaries of array columns). In a "
                    "third of the runs a second table / collector of a configuration of its own (half of "
                    "the time with the same field, key and column names) is alive and used in turn with the "
-                   "first; after every operation on either, both are compared with their models.",
+                   "first; after every operation on either, both are compared with their models. The stateless clauses also cover "
+                   "enumerations nested in / zipped with another enumeration of the same object (other "
+                   "orientation, empty cells, keys / values / items).",
         level_note="Keys are identifier-like strings that are not attribute names of the class; columns "
                    "are homogeneously typed (int, float without NaN, str, bool) or int-with-None (never "
                    "the sort column): mixed str/number columns are outside what the statement's rows can "
@@ -164,7 +172,7 @@ TEXT = {
                    "integers exactly, integers beyond 2**53 in 64-bit nodes; one run in 40 is a "
                    "marathon (up to 24 rounds, texts of up to ~90 statements that mostly define: "
                    "environments of dozens of nodes). Oracles: commit/abort as predicted, names in order "
-                   "of first appearance, type class / width / sign, unit and value (1e-12 relative). Sessions: in about one round in eight a second parser object is alive across the round - it was handed the text of an earlier committed round on the same base before the round's own parser existed and parses while that parser holds its queued text, or after the round has ended; or the round's own parser object is asked a second time with that text - and must return the environment that text gave before.",
+                   "of first appearance, type class / width / sign, unit and value (1e-12 relative). Sessions: in about one round in eight a second parser object is alive across the round - it was handed the text of an earlier committed round on the same base before the round's own parser existed and parses while that parser holds its queued text, or after the round has ended; or the round's own parser object is asked a second time with that text - and must return the environment that text gave before. Registered functions may use the library themselves (kind reenter): they parse other texts on parser objects of their own - with custom units under the names the outer texts use, and texts that must be refused -, convert quantities and open a unit scope; nested results are checked after the round.",
         level_note="Width changes, modifications of never-defined nodes, empty strings, none for array "
                    "nodes or with a unit, integer nodes converted by non-integer factors and a declared "
                    "node explicitly set to none are not generated (the statement does not settle them); "
@@ -195,7 +203,7 @@ TEXT = {
                    "that defines its nodes (unspecified whether accepted - but a returned environment "
                    "satisfies the constraints written with the definitions). Oracles: the model's commit/abort verdict in both directions (reject and "
                    "accept), and an independent evaluator re-checks every returned environment against "
-                   "all constraints its nodes carry, whatever the model predicted. Sessions: in about one round in eight a second parser object is alive across the round - it was handed the text of an earlier committed round on the same base before the round's own parser existed and parses while that parser holds its queued text, or after the round has ended; or the round's own parser object is asked a second time with that text - and must return the environment that text gave before.",
+                   "all constraints its nodes carry, whatever the model predicted. Sessions: in about one round in eight a second parser object is alive across the round - it was handed the text of an earlier committed round on the same base before the round's own parser existed and parses while that parser holds its queued text, or after the round has ended; or the round's own parser object is asked a second time with that text - and must return the environment that text gave before. Registered functions may use the library themselves (kind reenter): they parse other texts on parser objects of their own - with custom units under the names the outer texts use, and texts that must be refused -, convert quantities and open a unit scope; nested results are checked after the round.",
         level_note="Values within 1e-3 relative of a boundary without sitting on it are treated as "
                    "unspecified (the library compares with 1e-6 tolerance); constrained nodes are not "
                    "set to none; condition literals have the node's type and dimension.",
@@ -222,7 +230,7 @@ TEXT = {
                    "build (DIP(base, docs=True).parse_docs()) run over the base before the round's parse. Oracles: values, units, types "
                    "and paths as the model predicts; after every round every earlier environment "
                    "(including the base) and its custom units report exactly their commit-time snapshot "
-                   "and SimFS content is unchanged. Sessions: in about one round in eight a second parser object is alive across the round - it was handed the text of an earlier committed round on the same base before the round's own parser existed and parses while that parser holds its queued text, or after the round has ended; or the round's own parser object is asked a second time with that text - and must return the environment that text gave before. The script that creates a parser lives in a directory: parsers are also created by code compiled under a file name in one of two project directories of the simulated file system, whose text files are then named by relative paths (resolved against the creating script, also when chained on an environment a script of the other directory produced).",
+                   "and SimFS content is unchanged. Sessions: in about one round in eight a second parser object is alive across the round - it was handed the text of an earlier committed round on the same base before the round's own parser existed and parses while that parser holds its queued text, or after the round has ended; or the round's own parser object is asked a second time with that text - and must return the environment that text gave before. Registered functions may use the library themselves (kind reenter): they parse other texts on parser objects of their own - with custom units under the names the outer texts use, and texts that must be refused -, convert quantities and open a unit scope; nested results are checked after the round. The script that creates a parser lives in a directory: parsers are also created by code compiled under a file name in one of two project directories of the simulated file system, whose text files are then named by relative paths (resolved against the creating script, also when chained on an environment a script of the other directory produced).",
         level_note="Remote files use standard units; imports go below fresh groups (colliding paths are "
                    "not generated); injection across data types only int -> float; slicing a node "
                    "without value is not generated. File system is a stub (SimFS) installed as the "
